@@ -125,7 +125,8 @@ FilterResMatches(w, e) ==
     /\ (e.typ = "preempt" /\ Has(e, "res") /\ Has(e.res, "nodes")) =>
           LET pn == "preempt:" \o ops[e.op].loc.podname IN pn \in DOMAIN w.filtered /\ w.filtered[pn].nodes = ToSet(e.res.nodes)
 
-Hint(e) == IF Has(e, "ret") /\ Has(e.ret, "ips") THEN [ips |-> e.ret.ips] ELSE [x |-> 0]
+Hint(e) == IF Has(e, "ret") /\ Has(e.ret, "ips") THEN [ips |-> e.ret.ips]
+           ELSE IF Has(e, "ret") /\ Has(e.ret, "names") THEN [names |-> e.ret.names] ELSE [x |-> 0]
 
 \* a new incarnation of a pod name may ask for other ranges than the previous one (the workload's template changed)
 CreatePodWR(name, rr) ==
@@ -146,6 +147,7 @@ Proposed(e) ==
       [] e.ev = "StartResync" -> IF alive THEN {w \in {StartResyncW} : NextMatches(w, e.op, e)} ELSE {}
       [] e.ev = "StartApiRelease" -> IF alive THEN {w \in {StartApiReleaseW(e.ip, e.key)} : NextMatches(w, e.op, e)} ELSE {}
       [] e.ev = "StartReload" -> IF alive THEN {w \in {StartReloadW} : NextMatches(w, e.op, e)} ELSE {}
+      [] e.ev = "StartSyncAll" -> IF alive THEN {w \in {StartSyncAllW} : NextMatches(w, e.op, e)} ELSE {}
       [] e.ev = "StartPoolUpsert" -> IF alive THEN {w \in {StartPoolUpsertW(e.pool, e.size, e.prealloc)} : NextMatches(w, e.op, e)} ELSE {}
       [] e.ev = "CreatePod" -> IF e.pod \notin DOMAIN pods THEN {CreatePodWR(e.pod, RangesOfLog(e.ranges))} ELSE {}
       [] e.ev = "DeletePod" -> IF e.pod \in DOMAIN pods THEN {DeletePodW(e.pod)} ELSE {}
@@ -193,7 +195,7 @@ FromLog(e) ==
                 \* operations the model can no longer follow are dropped; later lines of theirs are skipped
                 !.ops = IF ~Exp(e, "alive") THEN Emp
                         ELSE IF Has(e, "op") /\ e.op \in DOMAIN ops THEN [x \in (DOMAIN ops) \ {e.op} |-> ops[x]] ELSE ops,
-                !.ctr = IF e.ev \in {"StartFilter", "StartPreempt", "StartBind", "StartUnbind", "StartResync", "StartApiRelease", "StartReload", "StartPoolUpsert"}
+                !.ctr = IF e.ev \in {"StartFilter", "StartPreempt", "StartBind", "StartUnbind", "StartResync", "StartApiRelease", "StartReload", "StartPoolUpsert", "StartSyncAll"}
                           THEN [ctr EXCEPT !.op = e.op + 1]
                         ELSE IF e.ev = "DeliverPod" /\ e.op # 0 THEN [ctr EXCEPT !.op = e.op + 1]
                         ELSE IF e.ev = "CreatePod" THEN [ctr EXCEPT !.uid = ctr.uid + 1] ELSE ctr]
